@@ -218,6 +218,8 @@ class Decider:
         self.timeout = 300 if tier == "thorough" else 60
         self.n = 0
         self.second_opinions = set()
+        self.second_order = ("cvc5", "z3-old")
+        self.no_second = False      # set for all but one worker of a property in the quick tier
         self.log = []
 
     def decide(self, name, assumptions, goal, second=None, timeout=None):
@@ -239,10 +241,10 @@ class Decider:
             return v, model, "z3-new: " + note
         # second opinion: once per obligation class (always in the thorough tier)
         cls = second or name.split("#")[0]
-        want = (self.tier == "thorough") or (cls not in self.second_opinions)
+        want = ((self.tier == "thorough") or (cls not in self.second_opinions)) and not self.no_second
         if want:
             self.second_opinions.add(cls)
-            for other in ("cvc5", "z3-old"):
+            for other in self.second_order:
                 v2, m2, dt2, note2 = run_solver(other, path, t)
                 self.stats.queries += 1
                 self.stats.solver_s += dt2
@@ -260,7 +262,11 @@ class Decider:
 def native_run(cases):
     """run the native harness on a list of JSON cases; returns list of results"""
     inp = "\n".join(json.dumps(c) for c in cases) + "\n"
-    p = subprocess.run([NATIVE_BIN], input=inp, capture_output=True, text=True, timeout=600)
+    try:
+        p = subprocess.run([NATIVE_BIN], input=inp, capture_output=True, text=True, timeout=90)
+    except subprocess.TimeoutExpired:
+        from interp import Inconclusive
+        raise Inconclusive("the native harness did not finish %d case(s) within 90 s (non-termination of the real code?)" % len(cases))
     if p.returncode != 0:
         raise RuntimeError("native harness failed: rc=%s %s" % (p.returncode, p.stderr[:300]))
     outs = [json.loads(l) for l in p.stdout.splitlines() if l.strip()]
